@@ -9,6 +9,8 @@
 (*               (db.go: constructPointIter / constructPointIterV2)           *)
 (*   Op          one positioning call of mergingIter (merging_iter.go) /      *)
 (*               mergingIterV2 (merging_iter_v2.go)                           *)
+(*   SetBounds   mergingIter.SetBounds on the same iterator (forwarded to     *)
+(*               every levelIter and its open table iterator): reuse          *)
 (* Properties: the mechanism's per-level deletion rule (isNextEntryDeleted /  *)
 (* isPrevEntryDeleted: a visible tombstone of a higher level deletes, one of  *)
 (* the same level only if newer) equals the declarative rule "shadowed by a   *)
@@ -68,7 +70,7 @@ Finish(sps, sn) ==
   /\ phase = "build" /\ (Emit => nw = MaxW)
   /\ splits' = sps /\ snap' = sn
   /\ phase' = (IF Emit THEN "open" ELSE "done")
-  /\ hist' = <<[op |-> "levels", snap |-> sn, levels |-> Form(sps)]>>
+  /\ hist' = (IF Emit THEN <<[op |-> "levels", snap |-> sn, levels |-> Form(sps)]>> ELSE <<>>)   \* only generator configs use hist
   /\ UNCHANGED <<pts, rds, nw, seq, nops, it>>
 OpenIt(lo, hi) ==
   /\ phase = "open" /\ lo < hi
@@ -78,8 +80,14 @@ OpenIt(lo, hi) ==
 
 RelEnabled == \E o \in RelOps : Enabled(it, o, 0)
 Pick == /\ phase = "pick" /\ nops < MaxOps
-        /\ phase' \in {"abs"} \cup (IF RelEnabled THEN {"rel"} ELSE {})
+        /\ phase' \in {"abs"} \cup (IF RelEnabled THEN {"rel"} ELSE {}) \cup (IF it.st # "unpos" THEN {"sb"} ELSE {})
         /\ UNCHANGED <<pts, rds, nw, seq, splits, snap, it, hist, nops>>
+SetBounds(lo, hi) ==
+  /\ phase = "sb" /\ SetBOK(lo, hi)
+  /\ it' = SetB(it, lo, hi)
+  /\ hist' = Append(hist, [op |-> "setb", h |-> 1, lo |-> lo, hi |-> hi])
+  /\ nops' = nops + 1 /\ phase' = "pick"
+  /\ UNCHANGED <<pts, rds, nw, seq, splits, snap>>
 Op(o, k) ==
   /\ \/ phase = "rel" /\ o \in RelOps
      \/ phase = "abs" /\ o \in AbsOps
@@ -91,8 +99,8 @@ Op(o, k) ==
 
 Next == \/ \E i \in Lv, k \in UKeys, kd \in Kinds, s \in 1..(MaxW + 1) : WritePoint(i, k, kd, s)
         \/ \E i \in Lv, a \in UKeys, b \in 1..R, s \in 1..(MaxW + 1) : WriteRd(i, a, b, s)
-        \/ \E sps \in [Lv -> {0, R \div 3, R \div 2}], sn \in (IF Emit THEN 1..(MaxW + 2) ELSE {2, MaxW + 2}) : Finish(sps, sn)
-        \/ \E lo \in 0..(R - 1), hi \in 1..R : OpenIt(lo, hi)
+        \/ \E sps \in [Lv -> {0, R \div 3, R \div 2}], sn \in (IF Emit THEN 1..(MaxW + 2) ELSE {2, MaxW + 1, MaxW + 2}) : Finish(sps, sn)
+        \/ \E lo \in 0..(R - 1), hi \in 1..R : OpenIt(lo, hi) \/ SetBounds(lo, hi)
         \/ Pick
         \/ \E o \in {"first", "last", "next", "prev", "nextprefix"} : Op(o, 0)
         \/ \E o \in KeyOps, k \in 0..R : Op(o, k)
@@ -100,18 +108,28 @@ Spec == Init /\ [][Next]_vars
 
 --------------------------------------------------------------------------
 Done == phase # "build"
+(* The invariants are stated over cur = the layout in file form, ms = its merged   *)
+(* visible set; Inv binds them once per state (LET values are memoised by TLC).   *)
 (* the generated layout satisfies the level invariant in file form *)
-LayoutInv == (Done /\ Bug # "NoLevelInvariant") => LevelInvariant(Cur)
+LayoutInvOf(cur) == Bug # "NoLevelInvariant" => LevelInvariant(cur)
 (* mechanism rule = declarative rule *)
-RuleInv == Done => ByLevelSet(Cur, snap) = MergedSet(Cur, snap)
+RuleInvOf(cur, ms) == ByLevelSet(cur, snap) = ms
 (* stated without the operators the seeded bugs live in *)
-WitnessInv == Done => \A e \in AllPts(Cur) :
-   (e \in MergedSet(Cur, snap)) <=>
-      (e[2] < snap /\ ~\E t \in AllRds(Cur) : t[3] < snap /\ t[3] > e[2] /\ t[1] <= e[1] /\ e[1] < t[2])
+WitnessInvOf(cur, ms) ==
+  LET ar == AllRds(cur) IN
+  \A e \in AllPts(cur) :
+     (e \in ms) <=> (e[2] < snap /\ ~\E t \in ar : t[3] < snap /\ t[3] > e[2] /\ t[1] <= e[1] /\ e[1] < t[2])
 (* splitting a level into files changes nothing *)
-SplitInv == Done => MergedSet(Cur, snap) = MergedSet(Form([i \in Lv |-> 0]), snap)
-SortedInv == Done => Sorted(ML)
-Inv == LayoutInv /\ RuleInv /\ WitnessInv /\ SplitInv /\ SortedInv
+SplitInvOf(ms) == ms = MergedSet(Form([i \in Lv |-> 0]), snap)
+SortedInvOf(ms) == Sorted(SetToSortedSeq(ms))
+Inv == Done => LET cur == Cur
+                   ms == MergedSet(cur, snap)
+               IN LayoutInvOf(cur) /\ RuleInvOf(cur, ms) /\ WitnessInvOf(cur, ms) /\ SplitInvOf(ms) /\ SortedInvOf(ms)
+LayoutInv == Done => LayoutInvOf(Cur)
+RuleInv == Done => RuleInvOf(Cur, MergedSet(Cur, snap))
+WitnessInv == Done => WitnessInvOf(Cur, MergedSet(Cur, snap))
+SplitInv == Done => SplitInvOf(MergedSet(Cur, snap))
+SortedInv == Done => SortedInvOf(MergedSet(Cur, snap))
 
 EmitInv == (Emit /\ phase = "pick" /\ nops = MaxOps) => PrintT(ToJson(hist))
 View == <<pts, rds, nw, seq, phase, splits, snap, it>>
